@@ -92,7 +92,7 @@ def _prune(keep_prefix):
                 age = time.time() - os.path.getmtime(full)
             except OSError:
                 continue
-            if age > 600:  # do not race with a concurrent check of another tree
+            if age > 4 * 3600:  # do not race with a concurrent check of another tree
                 shutil.rmtree(full, ignore_errors=True)
 
 
@@ -137,9 +137,15 @@ def ensure_harness(variant="asan"):
     exe = os.path.join(bdir, "sfh-" + hh)
     with Lock(os.path.join(CACHE, "locks", "h-%s.lock" % os.path.basename(bdir))):
         if os.path.exists(exe):
+            os.utime(exe)
+            os.utime(bdir)
             return exe
         for old in glob.glob(os.path.join(bdir, "sfh-*")):
-            os.unlink(old)
+            try:
+                if time.time() - os.path.getmtime(old) > 6 * 3600:   # other workers may be using other harness versions
+                    os.unlink(old)
+            except OSError:
+                pass
         srcs = sorted(glob.glob(os.path.join(HARNESS_DIR, "*.c")))
         cmd = ["gcc", "-O1", "-g", "-fno-omit-frame-pointer", "-fsanitize=address", "-D%s=1" % GUARD,
                "-Wall", "-Wno-unused-function", "-I", os.path.join(REPO, "include"), "-I", os.path.join(bdir, "include"),
